@@ -20,7 +20,7 @@ MCBegin == \E kind \in {"humans", "animals"}, w \in {I(0), I(50)}, s0 \in Grid :
   Begin([kind |-> kind, gSf |-> g, wSf |-> w, gCrop |-> g, wCrop |-> w, gMeat |-> g, wMeat |-> w, gScp |-> g, wScp |-> w,
          gCs |-> g, wCs |-> w, gSw |-> g, wSw |-> w, wRetail |-> w, swKcal |-> I(1), swInit |-> Zero, swInitArea |-> Zero,
          swMinDens |-> I(1), swMaxDens |-> I(1), swLoss |-> Zero, sfInitial |-> s0, store |-> TRUE, popNeed |-> I(1), monthDays |-> I(30),
-         capH |-> Caps100, capF |-> Caps100, capB |-> Caps100, capsCfg |-> "unknown"])
+         capH |-> Caps100, capF |-> Caps100, capB |-> Caps100, capsCfg |-> "unknown", storeCfg |-> "unknown"])
 
 MCMonth == \E crops \in {I(0), I(2)}, meat \in {I(0), I(2)}, charge \in {I(0), I(1)},
               sfh \in Grid, sff \in {I(0), I(1)}, ch \in Grid, cf \in {I(0), I(1)}, me \in Grid :
